@@ -4,6 +4,7 @@ import (
 	"encoding/json"
 	"fmt"
 	"math/rand"
+	"os"
 	"sort"
 	"strings"
 
@@ -227,6 +228,29 @@ func c14(c *ctx) {
 			want[ident(q3)] = fullKey(&r3[0])
 			subs = append(subs, q3)
 			c.run.Count("owners_breaking_their_own_instance_next_to_printing_ones", 1)
+		}
+		if os.Getenv("VERIF_DEBUG") != "" {
+			// diagnostic: every sub-request of the printing batch alone, one goroutine, one repetition
+			for k, q := range subs {
+				rr, err := cp.Run([]corpus.Req{{Mode: "conc", Conc: []corpus.Req{q}, Gor: 1, Reps: 1, Print: true}}, corpus.RunOpts{Workers: 1, CPUSeconds: 300})
+				n := 0
+				if err == nil {
+					for _, v := range rr[0].StdoutHist {
+						n += v
+					}
+				}
+				fmt.Fprintf(os.Stderr, "DEBUG sub %d pkg=%s misuse=%v pretty=%v in=%d bytes: printed %d bytes alone\n", k, q.Pkg, q.Misuse, q.Pretty, len(q.In), n)
+			}
+			for _, set := range [][]corpus.Req{subs, subs[:24], subs[24:], append(append([]corpus.Req{}, subs[24:]...), subs[:24]...)} {
+				rr, err := cp.Run([]corpus.Req{{Mode: "conc", Conc: set, Gor: 1, Reps: 1, Print: true}}, corpus.RunOpts{Workers: 1, CPUSeconds: 300})
+				n := 0
+				if err == nil {
+					for _, v := range rr[0].StdoutHist {
+						n += v
+					}
+				}
+				fmt.Fprintf(os.Stderr, "DEBUG %d subs in one process, one goroutine: %d bytes\n", len(set), n)
+			}
 		}
 		if len(subs) > 0 {
 			conc = append(conc, corpus.Req{Mode: "conc", Conc: subs, Gor: 8, Reps: 6, Print: true})
